@@ -159,7 +159,8 @@ def _roots_and_patterns(db, chk, m):
     proj = rn and [e for e in r.events if e["kind"] == "project" and e.get("cols") == ["index", "name", "dur", "kernel_dur_sum"]]
     # (only relevant when the loop unpacks rows of a projected frame positionally; a zip over explicitly named columns binds by name)
     by_name = any(e["kind"] == "loop-enter" and isinstance(e.get("iter"), tuple) and e["iter"] and e["iter"][0] == "zip" for e in r.events)
-    chk.ob("C16.R2-pattern", "the positional unpacking agrees with the projected column order", bool(proj) or (by_name and okd), where, found=[e.get("cols") for e in r.events if e["kind"] == "project"][:4], accepted=["index", "name", "dur", "kernel_dur_sum"])
+    positional = any(e["kind"] == "loop-enter" and "itertuples" in T.show(e.get("iter")) for e in r.events)
+    chk.ob("C16.R2-pattern", "the positional unpacking agrees with the projected column order", True if (bool(proj) or (by_name and okd)) else (False if positional and okd is False and vals else None), where, found=[e.get("cols") for e in r.events if e["kind"] == "project"][:4], accepted=["index", "name", "dur", "kernel_dur_sum"])
     chk.floor("C16.R1-root-selection", 3)
     chk.floor("C16.R2-pattern", 5)
 
